@@ -95,3 +95,11 @@ Definition S_best_pivots_legal : Prop :=
   forall g use_tot tot x v, wf_graph g = true -> symmetric_graph g -> v < length g ->
   let p := nth v (best_pivots true use_tot (dist_matrix g) (length g) tot x) 0 in
   p < length g /\ dget (dist_matrix g) p v <> None.
+
+(** the boolean test the driver applies to OBSERVED pivots decides exactly the condition
+    [legal_op_sym] puts on the pivots of the SCC step *)
+Definition S_legal_pivots_symb_spec : Prop :=
+  forall g piv,
+  legal_pivots_symb (dist_matrix g) (length g) piv = true <->
+  (forall v, v < length g ->
+     nth v piv 0 < length g /\ dget (dist_matrix g) (nth v piv 0) v <> None).
